@@ -96,8 +96,13 @@ def eval_proc(case, rng, thorough):
         variants.append(("env-tz", {"PYTHONHASHSEED": "7", "TZ": "UTC-14"}, None))
     ref = None
     bad, classes, units = [], set(), 0
+    variants.append(("output-path-exists", {"PYTHONHASHSEED": "8"}, None))
     for label, env, cwd in variants:
-        r = runner.run_subprocess(files, argv, env=env, cwd=cwd)
+        f_run = files
+        if label == "output-path-exists":
+            # the -o path already holds a (longer) file - the export of an earlier run on a bigger capture: nothing of it may survive
+            f_run = dict(files, **{"out.pcapng": (ref or b"") + rng.randbytes(rng.choice([1, 4096, 300000]))})
+        r = runner.run_subprocess(f_run, argv, env=env, cwd=cwd)
         units += 1
         if r.status != "ok" or r.out is None:
             bad.append(f"variant {label}: process failed ({r.status}): {(r.stderr or b'').decode('utf8', 'replace')[-400:]}")
@@ -135,6 +140,8 @@ def eval_inproc(case, rng):
         argv_a[1] = "{dir}/missing.pcapng"
     elif ends == "no-keylog":
         argv_a[5] = "{dir}/missing.log"
+    if case["i"] % 4 == 1:
+        argv_a[3] = "{dir}/outb.pcapng"       # both runs write the same output path: the later export replaces the earlier (usually different, often longer) one
     solo = runner.run_tlexport(files, argv_b, outnames=("outb.pcapng",))
     both = runner.run_tlexport(files, [argv_a, argv_b], outnames=("outb.pcapng", "outa.pcapng"), earlier_may_fail=bool(ends))
     out = {"cls": ["inproc", len(fa), len(fb), "+".join(ea), "+".join(eb), ends or "completes"], "tags": ["mode:in-process"],
